@@ -1365,6 +1365,13 @@ func ParseJSON(data []byte) (*Message, error) {
 	if len(unprotected.crit) > 0 {
 		return nil, errors.New("jwe: crit must be integrity protected")
 	}
+	// the Header Parameter names in the protected header, the shared unprotected header
+	// and the per-recipient unprotected header MUST be disjoint; RFC 7516 Section 7.2.1.
+	for name := range raw.Unprotected {
+		if _, ok := rawHeader[name]; ok {
+			return nil, fmt.Errorf("jwe: duplicate header parameter: %q", name)
+		}
+	}
 
 	b64ciphertext := []byte(raw.Ciphertext)
 	ciphertext, err := b64Decode(b64ciphertext)
@@ -1408,6 +1415,13 @@ func ParseJSON(data []byte) (*Message, error) {
 		}
 		if len(header.crit) > 0 {
 			return nil, errors.New("jwe: crit must be integrity protected")
+		}
+		for name := range r.Header {
+			_, ok1 := rawHeader[name]
+			_, ok2 := raw.Unprotected[name]
+			if ok1 || ok2 {
+				return nil, fmt.Errorf("jwe: duplicate header parameter: %q", name)
+			}
 		}
 		b64encryptedKey := []byte(r.EncryptedKey)
 		encryptedKey, err := b64Decode(b64encryptedKey)
